@@ -3,6 +3,7 @@ from __future__ import annotations
 
 import ast
 from fractions import Fraction
+import numpy as np
 from typing import Dict, FrozenSet, Optional, Tuple
 
 from .interp import TOP
@@ -126,6 +127,14 @@ class Poly:
         if isinstance(m, int) and m > 0 and all(c.denominator == 1 for c in self.terms.values()):
             return Poly({k: Fraction(int(c) % m) for k, c in self.terms.items()})
         return TOP
+
+    def __and__(self, m):
+        # the lowest bit of an integer is its parity (the variables stand for integers)
+        if isinstance(m, (int, np.integer)) and not isinstance(m, bool) and int(m) == 1:
+            return self % 2
+        return TOP
+
+    __rand__ = __and__
 
     def __eq__(self, o):
         o = Poly.lift(o)
